@@ -18,8 +18,11 @@ use vmm_sys_util::{
 };
 
 // Use a dummy ioctl implementation for tests instead.
-#[cfg(not(test))]
+#[cfg(all(not(test), not(vm_memory_verif)))]
 use vmm_sys_util::ioctl::ioctl_with_ref;
+
+#[cfg(all(not(test), vm_memory_verif))]
+use crate::verif::ioctl_with_ref;
 
 #[cfg(test)]
 use tests::ioctl_with_ref;
